@@ -97,6 +97,19 @@ def boundary_programs():
         out.append((A.PROTO(4), A.MARK, A.BININT1(1), A.SBU("k"), A.BINBYTES(b"y" * n), A.BININT1(2), A.TUPLE))
         out.append((A.PROTO(2), A.EMPTY_LIST, A.BINPUT(0), A.BINUNICODE("x" * n), A.APPEND, A.NONE, A.APPEND))
         out.append((A.NONE, A.POP, A.BINSTRING("z" * n), A.BINBYTES(b"w" * n), A.TUPLE2))
+    # encodings a CPython pickler never writes but every unpickler reads: padded LONG1 / LONG4, signs and leading zeros in
+    # text ints, both quote styles, exponent floats - re-serialising must give them back, not their canonical twins
+    raw = lambda name, b: asm.Sym(name, b, "push", "o")  # noqa: E731
+    out += [(raw("LONG1-padded-1", b"\x8a\x02\x01\x00"),), (raw("LONG1-padded-0", b"\x8a\x01\x00"),),
+            (raw("LONG1-padded-neg", b"\x8a\x04\xff\xff\xff\xff"),), (raw("LONG1-255-zeros", b"\x8a\xff" + b"\x00" * 255),),
+            (raw("LONG4-padded", b"\x8b\x03\x00\x00\x00\x05\x00\x00"),), (raw("LONG4-empty", b"\x8b\x00\x00\x00\x00"),),
+            (raw("INT-leading-zeros", b"I007\n"),), (raw("INT-plus", b"I+5\n"),), (raw("INT-minus-zero", b"I-0\n"),),
+            (raw("LONG-no-suffix", b"L5\n"),), (raw("LONG-suffix", b"L5L\n"),), (raw("LONG-leading-zero", b"L005L\n"),),
+            (raw("STRING-double-quotes", b'S"x"\n'),), (raw("STRING-single-quotes", b"S'x'\n"),),
+            (raw("PUT-leading-zero", b"N"), raw("PUT01", b"p01\n")), (raw("BINFLOAT-negzero", b"G\x80" + b"\x00" * 7),),
+            (raw("a", b"I1\n"), raw("b", b"I01\n"), raw("c", b"I1\n"), raw("d", b"I00\n"), raw("e", b"I0\n"), A.TUPLE3, A.TUPLE3),
+            (raw("f", b"G" + b"\x00" * 8), raw("g", b"G\x80" + b"\x00" * 7), A.TUPLE2),
+            (raw("h", b"\x8a\x01\x05"), raw("i", b"\x8a\x02\x05\x00"), raw("j", b"\x8a\x01\x05"), A.TUPLE3)]
     out += [(A.BINUNICODE8("u" * 300),), (A.BINBYTES8(b"b" * 300),), (A.BYTEARRAY8(b"a" * 300),),
             (A.BINUNICODE("é" * 128),), (A.SBU("中" * 85),), (A.BINUNICODE("\U0001f600" * 64),)]
     for v in (0, 1, -1, 127, 128, -128, 255, 2**15, 2**63, -2**63, 2**(8 * 254), -(2**(8 * 254)), 2**(8 * 300)):
